@@ -117,6 +117,15 @@ class Gate:
 
     def call(self, traces, i):
         out = self.transform(traces)
+        lay = getattr(self, 'layout', None)
+        if lay == 'F':
+            out = np.asfortranarray(out)               # a preprocess may return any memory layout: column-major ...
+        elif lay == 'T':
+            out = np.ascontiguousarray(out.T).T        # ... a transposed view of a row-major array ...
+        elif lay == 'S':
+            wide = np.zeros((out.shape[0], 2 * out.shape[1]), dtype=out.dtype)
+            wide[:, ::2] = out
+            out = wide[:, ::2]                         # ... or every second column of a wider buffer
         if self.schedule is None:
             if self.delays:
                 time.sleep(self.rng.random() * self.delays)
@@ -185,7 +194,7 @@ def install_done_hooks(analysis, gate):
 def expected(chk, datasets):
     path = dh.write_json(datasets)
     try:
-        r = tlc.run('TTestCases', cfg_text=tlc.cfg(invariants=['VarianceFormulationsAgree', 'ReplicationLemma', 'Emit']), env={'CASES': path}, workers=1, timeout=600)
+        r = tlc.run('TTestCases', cfg_text=tlc.cfg(invariants=['VarianceFormulationsAgree', 'ReplicationLemma', 'ShiftLemma', 'Emit']), env={'CASES': path}, workers=1, timeout=600)
     finally:
         os.unlink(path)
     chk.add_tlc('GEN:Welch certificates', r)
@@ -203,14 +212,14 @@ def welch_values(cert, rep=1):
     return out
 
 
-def compare_result(chk, analysis, exp, precision, ctx, rep=1):
+def compare_result(chk, analysis, exp, precision, ctx, rep=1, shift=0):
     want = welch_values(exp['cert'], rep)
     got = np.asarray(analysis.result, dtype='float64')
     eps = st.eps_of(precision)
     for s, w in enumerate(want):
         if w is None:
             continue
-        m1 = abs(float(Fraction(*exp['mean1'][s]))) + 1
+        m1 = abs(float(Fraction(*exp['mean1'][s]))) + abs(shift) + 1     # shift: the case presented on a common offset (TTestCases.ShiftLemma)
         v1 = float(Fraction(*exp['var1'][s])) + 1e-30
         kappa = 8 + 8 * (m1 * m1) / v1
         if got.shape != (len(want),) or not np.isfinite(got[s]) or abs(got[s] - w) > 64 * eps * kappa * (abs(w) + 1):
@@ -410,6 +419,22 @@ def free_running(chk, rng, q):
                 if an.accumulators[i_].processed_traces != len(rows[i_]):
                     chk.violation('result equals (mean1 - mean2) / sqrt(var1/n1 + var2/n2) over all traces of both sets', dict(ctx, property='C09', slow_set=slow_set, processed=[int(a_.processed_traces) for a_ in an.accumulators]),
                                   f'{ctx["label"]} (set {slow_set} slow): accumulator {i_ + 1} processed {an.accumulators[i_].processed_traces} of {len(rows[i_])} traces')
+        if k < (3 if q else 12):
+            # the same sets on a common offset (TTestCases.ShiftLemma: same certificate), stored in float32 (squares beyond 2^24: not representable in the
+            # traces' own type), accumulated in float64, the preprocess returning column-major / transposed / strided batches
+            for li, lay in enumerate(['F', 'T', 'S', None]):
+                off = [2048, 3000, 1500][(k + li) % 3]
+                sh = [(np.array(r_, dtype='float32') + off) for r_ in rows]
+                for bs2 in ((bs, 10 ** 6) if li == 0 else (bs,)):
+                    scared.set_batch_size(bs2)
+                    an = scared.TTestAnalysis(precision='float64')
+                    g3 = Gate(an, None)
+                    g3.layout = lay
+                    an.run(build(an, sh[0], sh[1], 'float32', None, g3))
+                    chk.count(('free-shift', k, lay, bs2), nontrivial=True)
+                    chk.traces_validated += 1
+                    compare_result(chk, an, exps[k], 'float64', dict(ctx, label=ctx['label'] + f' on offset {off} in float32, float64 precision, preprocess output layout {lay} (batch size {bs2})',
+                                                                      offset=off, layout=lay, batch_size=bs2, dtype='float32', precision='float64'), shift=2 * off)
         if k < (2 if q else 8):
             # the same sets presented rep times: many thousand traces, taken as ONE batch per set and as a few large batches
             rep = 10007 // min(len(rows[0]), len(rows[1])) + 1
